@@ -45,6 +45,9 @@ type Result struct {
 	Resolved []string // resolver positions invoked
 	Fields   []string // every field position executed (field interceptors see exactly these)
 	DirCalls []string // directive positions invoked
+	// EagerPoints are the positions (incl. list elements) whose value went through an eager
+	// marshal FUNCTION (Tag, Tone): fault points for "the marshal function panics"
+	EagerPoints []string
 	Panics   int
 	Groups   []*Group // deferred groups started (defer-aware mode)
 	// GroupViolation[objPath] is set when a field excused by InFailedGroup really violated non-null
@@ -387,6 +390,21 @@ func (e *exec) complete(t *ast.Type, sel ast.SelectionSet, valueKey, path string
 		n := p.ListLen(valueKey)
 		arr := parsers.NewArr()
 		bad := false
+		if t.Elem.Elem == nil && t.Elem.NamedType == "Tag" {
+			// (P3) elements of a list of SCALARS are not positions of their own in gqlgen: they
+			// are marshalled one after the other inside the list's field function, so the first
+			// element whose marshal function panics is a panic of the list field
+			for i := 0; i < n; i++ {
+				if p.ElemNull(valueKey, i, b.ElemNilable) {
+					continue
+				}
+				if p.TagPanics(fmt.Sprintf("%s[%d]", valueKey, i)) {
+					e.res.Panics++
+					e.addErr(path, "M:panic")
+					return parsers.NewNull()
+				}
+			}
+		}
 		for i := 0; i < n; i++ {
 			ekey := fmt.Sprintf("%s[%d]", valueKey, i)
 			epath := fmt.Sprintf("%s[%d]", path, i)
@@ -412,6 +430,16 @@ func (e *exec) complete(t *ast.Type, sel ast.SelectionSet, valueKey, path string
 	def := e.env.Schema.Types[t.NamedType]
 	switch def.Kind {
 	case ast.Scalar, ast.Enum:
+		if (t.NamedType == "Tag" || t.NamedType == "Tone") && p.TagPanics(valueKey) {
+			// the value's marshal function panics while the value is completed: that position
+			// is null and reports the recovered panic
+			e.res.Panics++
+			e.addErr(path, "M:panic")
+			return parsers.NewNull()
+		}
+		if t.NamedType == "Tag" || t.NamedType == "Tone" {
+			e.res.EagerPoints = append(e.res.EagerPoints, valueKey)
+		}
 		return p.Scalar(valueKey, t.NamedType)
 	case ast.Object:
 		v, invalid := e.selectionSet(sel, def.Name, valueKey, path)
